@@ -307,6 +307,14 @@ def write_replay(prop, payload):
 
 
 def write_evidence(prop, tier, level, coverage, assumptions, wall_s, violations):
+    if os.path.realpath(REPO) != "/repo":
+        # a run against another checkout (seeded changes): never overwrite the evidence of /repo itself
+        d = os.path.join(VERIF, "replays", "evidence-other-tree")
+        os.makedirs(d, exist_ok=True)
+        ev = {"property_id": prop, "tier": tier, "seed": seed(), "level": level, "coverage": coverage,
+              "assumptions": assumptions, "wall_s": round(wall_s, 2), "violations": violations, "repo": REPO}
+        json.dump(ev, open(os.path.join(d, prop + ".json"), "w"), indent=1, sort_keys=True)
+        return ev
     os.makedirs(os.path.join(VERIF, "evidence"), exist_ok=True)
     ev = {"property_id": prop, "tier": tier, "seed": seed(), "level": level, "coverage": coverage,
           "assumptions": assumptions, "wall_s": round(wall_s, 2), "violations": violations}
